@@ -6,6 +6,10 @@
 (* every slot at small widths, that AnsEnc / AnsDec / Flushes of Ans.tla ARE *)
 (* that step with N = 2^P, B = 2^W, K = 2^(S-W-P), so that the unbounded     *)
 (* theorems apply to the specification the implementation is bound to.       *)
+(* The two conjuncts on AnsEnc / AnsDec below are, verbatim, EncCfg / DecCfg *)
+(* of proofs/AnsMessage.tla (the step on whole configurations and the        *)
+(* end-to-end theorem Message for unbounded messages), and A!Inv is its      *)
+(* CfgInv.                                                                   *)
 EXTENDS Naturals, Sequences, TLC
 CONSTANTS W, S, MaxBulk
 A == INSTANCE Ans
